@@ -23,6 +23,11 @@ func NewCond(l Locker) *Cond { return sync.NewCond(l) }
 // objects under test are created and not changed while they are in use.
 var Hook func()
 
+// UnlockHook, when non-nil (and Hook is set), is called right after every Unlock: a scheduler
+// point that lets another goroutine run between a critical section and the code that follows
+// it (the "lock released too early" class: shared state still used after the unlock).
+var UnlockHook func()
+
 type Mutex struct {
 	real sync.Mutex
 	once sync.Once
@@ -47,6 +52,9 @@ func (m *Mutex) Unlock() {
 	if Hook != nil {
 		m.lazy()
 		<-m.ch
+		if h := UnlockHook; h != nil {
+			h()
+		}
 		return
 	}
 	m.real.Unlock()
